@@ -55,6 +55,7 @@ type Node struct {
 	ArtifactType string
 	ConfigMT     string
 	Annotations  map[string]string
+	TagAnn       map[string]string // annotations map shared by every annotated Tag of this node (see TagDesc)
 }
 
 // DAG is a generated graph plus its own edge list; oracles never ask oras-go
